@@ -324,6 +324,8 @@ def run(ctx):
     ctx.broken += common.proof_stage(ctx, THEOREMS)
     docs = EDGE_DOCS * 6 + [fn_doc(ctx.rng) for _ in range(1500 if ctx.quick() else 15000)]
     n1 = correspondence(ctx, docs)
+    # the concrete Lean parser model of the footnotes plugin (inline reference, block definition, md_footnotes_hook): full token trees
+    common.model_tie(ctx, docs, 'only-footnotes', 'doc', limit=(700 if ctx.quick() else 7000))
     n2 = html_oracle(ctx, docs)
     n2 += block_order(ctx, 400 if ctx.quick() else 6000)
     n2 += adjacency(ctx, 1500 if ctx.quick() else 20000)
